@@ -10,7 +10,7 @@ LEVEL_TEXT = ("Lean theorems over the operation sequence of WriteResult and ever
               "path holds the earlier content or the complete new result (and then the .query file holds the query), for every earlier "
               "state, result and crash point; with append earlier bytes are a prefix of every later state and a complete run adds the "
               "header only to an absent/empty file; tied to the code by running the real WriteResult under strace and comparing the "
-              "syscall sequence on the outfile paths with the model's operation list, plus SIGKILL injection at operation boundaries")
+              "syscall sequence on the outfile paths with the model's operation list, plus SIGKILL injection at operation boundaries; c15.race: the client's two writers of one outfile (periodic reporter, final report) on the real GlobalGroupSet — the outfile is the single-writer result the moment the final write returns; a run whose syscall sequence no longer matches the model is killed at each of its file operations")
 TRUSTED = ["Lean 4 kernel", "axioms: propext, Quot.sound, Classical.choice (at most)", "overlay harness + dtmodel driver + this diff", "strace",
            "modelled not verified: the OS (rename is atomic, a killed process loses nothing already written, O_TRUNC/O_APPEND semantics), "
            "fmt %f/%d rendering (integer-valued aggregates only), result row order for equal order keys (generated keys are distinct)"]
